@@ -641,9 +641,11 @@ impl DrawExecutor {
                 if dest.x + x >= res.width {
                     break;
                 }
-                let offset = (yp * width + xp) as usize;
-                let color = self.screen_memory[offset];
-                self.set_pixel(dest.x + x, dest.y + y, color);
+                // a source rectangle that reaches outside the saved block (or nothing saved yet) copies nothing there
+                let offset = yp as i64 * width as i64 + xp as i64;
+                if let Some(color) = usize::try_from(offset).ok().and_then(|o| self.screen_memory.get(o).copied()) {
+                    self.set_pixel(dest.x + x, dest.y + y, color);
+                }
             }
         }
     }
